@@ -13,14 +13,31 @@ def field (obs key : String) : Option Nat :=
     | [k, v] => if k == key then v.toNat? else none
     | _ => none
 
+/-- extensions whose result or effect depends on something other than their arguments (state of their own such as the
+image store, the clock, the random source, files, the terminal, processes).  Pinned here, independently of the
+`DontCache` flag of the registration: the flag is what the suite checks, so it cannot also be the oracle.  An extension
+that is in neither list is reported with the tag `unclassified` (a new extension has to be looked at), not as a failure. -/
+def impure : List String :=
+  ["eof", "rand", "time.now", "load", "save", "read", "exec", "run",
+   "image.new", "image.set", "image.set_ycbcr", "image.set_hsl", "image.save", "image.png",
+   "image.move_to", "image.line_to", "image.close_path", "image.draw", "image.draw_ycbcr", "image.draw_hsl",
+   "image.add", "image.cube_to", "image.quad_to"]
+
+/-- extensions looked at and found to be functions of their arguments (sleep only delays) -/
+def pureExt : List String :=
+  ["acos", "asin", "atan", "atan2", "base64", "ceil", "cos", "defun", "eval", "exp", "floor", "format", "int", "join", "json",
+   "json_go", "ln", "log10", "max", "min", "pow", "regexp", "regsub", "round", "rune_len", "runes", "sin", "sleep", "split",
+   "sprintf", "sqrt", "tan", "time.info", "time.parse", "trim", "trim_left", "trim_right", "trunc", "type", "unjson", "width"]
+
 def runCase (inp obs : String) : CaseResult :=
   match splitOn inp ';', field obs "cl1", field obs "cl2" with
   | [name, dc, _], some c1, some c2 =>
     let dont := dc == "1"
-    -- statement: DontCache => no entry after either call
-    let ok := !dont || (c1 == 0 && c2 == 0)
+    -- statement: an impure extension is flagged DontCache, and DontCache => no entry after either call
+    let ok := (!dont || (c1 == 0 && c2 == 0)) && (!impure.contains name || dont)
     { model := if dont then "cl1=0;cl2=0" else obs, agree := ok, stmtModel := true, stmtImpl := ok,
-      tags := [if dont then "dontcache" else "cacheable", if c1 > 0 then "stored" else "not-stored"],
+      tags := [if dont then "dontcache" else "cacheable", if c1 > 0 then "stored" else "not-stored",
+               if impure.contains name then "pinned-impure" else if pureExt.contains name then "pinned-pure" else "unclassified"],
       nontrivial := true, klass := if ok then "" else name }
   | _, _, _ => CaseResult.badLine
 
